@@ -5,33 +5,48 @@
 (*   read event: path, now (the text at the path when it is read), readok, read (Topology.from_gmx_topfile), read2 (from_itp)     *)
 (*   readff event: the same through MetaMolecule.from_itp into the ONE force field the process keeps (library loaded / earlier     *)
 (*               molecules of the same name in it)                                                                                *)
+(*   other event: a gen_params run that did not pass mapping / link application (it is outside C11; it may have logged something)   *)
 (* The trace specification keeps the file system as state (tfs): a write replaces the content of its path only, a read returns    *)
 (* Read(current content of the path) - whatever was written there or read from there before.                                      *)
+(* The MESSAGE state of the process is state too: tlog = the info / warning / error records the process has logged so far (every  *)
+(* event carries `logged`, the records of that operation, taken by a counting handler at the root of the logging system, which is *)
+(* switched on as it is for the command line); a gen event also carries `msgs`, the [ info ] / [ warning ] / [ error ] messages    *)
+(* that the applied blocks and links attached to the molecule built.  The law: TGen has NO guard on tlog or msgs - a run that      *)
+(* passed mapping and link application has written its file, and the file reads as the molecule built, in every message state.    *)
 EXTENDS ItpRoundTrip, Json, IOUtils
-VARIABLES tid, l, tfs
+VARIABLES tid, l, tfs, tlog
 Doc == JsonDeserialize(IOEnv.TRACE_FILE)
 Traces == Doc.traces
 TPaths == {"P1", "P2", "P3"}
 ASSUME TLCSet(1, {}) /\ TLCSet(2, [t \in 1..Len(Traces) |-> 0])
 Ev == Traces[tid][l]
 FixB(p) == [p EXCEPT !.inter = [i \in DOMAIN p.inter |-> [p.inter[i] EXCEPT !.sec = FileSec(@)]]]
+Lv == {"info", "warning", "error"}
+Logged(e) == [v \in Lv |-> tlog[v] + e.logged[v]]
+\* enabled in every message state: whatever tlog holds (messages of earlier calls) and whatever Ev.msgs / Ev.logged say (this call)
 TGen == /\ Ev.op = "gen" /\ Ev.written
         /\ LET r == Read(Ev.lines) IN r.ok /\ SameFast(r, FixB(Ev.built))
         /\ tfs' = [tfs EXCEPT ![Ev.path] = Ev.lines]
+        /\ tlog' = Logged(Ev)
+\* a run that was refused before link application had ended: no file is claimed; what it logged stays with the process
+TOther == /\ Ev.op = "other" /\ tfs' = tfs /\ tlog' = Logged(Ev)
 TRead == /\ Ev.op = "read" /\ Ev.readok
          /\ Ev.now = tfs[Ev.path]                                   \* nothing but the last write to this path decides its content
          /\ LET r == Read(tfs[Ev.path]) IN r.ok /\ SameFast(Ev.read, r) /\ SameFast(Ev.read2, r)
-         /\ tfs' = tfs
+         /\ tfs' = tfs /\ tlog' = Logged(Ev)
 \* MetaMolecule.from_itp into the one force field of the process, whatever it holds (the library, molecules read before): the same law
 TReadFF == /\ Ev.op = "readff" /\ Ev.readok
            /\ Ev.now = tfs[Ev.path]
            /\ LET r == Read(tfs[Ev.path]) IN r.ok /\ SameFast(Ev.read, r)
-           /\ tfs' = tfs
+           /\ tfs' = tfs /\ tlog' = Logged(Ev)
 Frozen == /\ mol = 0 /\ pc = "trace" /\ out = <<>> /\ secs = {} /\ cur = "" /\ groups = <<>> /\ pend = <<>> /\ gopen = NoGuard
           /\ late = FALSE /\ rd = R0 /\ ri = 1
-TInit == Frozen /\ tid \in 1..Len(Traces) /\ l = 1 /\ tfs = [p \in TPaths |-> <<>>]
-TNext == /\ l <= Len(Traces[tid]) /\ (TGen \/ TRead \/ TReadFF) /\ l' = l + 1 /\ tid' = tid /\ UNCHANGED vars
-TSpec == TInit /\ [][TNext]_<<vars, tid, l, tfs>>
+TInit == Frozen /\ tid \in 1..Len(Traces) /\ l = 1 /\ tfs = [p \in TPaths |-> <<>>] /\ tlog = [v \in Lv |-> 0]
+TNext == /\ l <= Len(Traces[tid]) /\ (TGen \/ TRead \/ TReadFF \/ TOther) /\ l' = l + 1 /\ tid' = tid /\ UNCHANGED vars
+TSpec == TInit /\ [][TNext]_<<vars, tid, l, tfs, tlog>>
+\* the process state of the model is the process state of the run: every event also carries `seen`, the records by level the process
+\* had logged when the operation began (the same handler, which lives as long as the process)
+SeenIsLog == l <= Len(Traces[tid]) => \A v \in Lv : Ev.seen[v] = tlog[v]
 Mark == (l = Len(Traces[tid]) + 1) => TLCSet(1, TLCGet(1) \cup {tid})
 Prog == TLCSet(2, [TLCGet(2) EXCEPT ![tid] = IF @ < l - 1 THEN l - 1 ELSE @])
 Accepted == IF TLCGet(1) = 1..Len(Traces) THEN TRUE
